@@ -317,7 +317,9 @@ def calls_engine(prop, tier, work, name):
         else:
             if tgt.startswith("polyseed_deps."):
                 continue
-            if fn in ("lang_search", "polyseed_lang_check") and tgt.endswith("cmp"):
+            if re.match(r"^%s::(\d+::)*[A-Za-z_][A-Za-z_0-9]*$" % re.escape(fn), tgt):
+                # a call through a function-pointer parameter or local of the same function (the comparer handed to the
+                # search); where such a pointer can come from is covered by the address-taken check below
                 continue
             bad.append("%s calls through pointer %s" % (fn, tgt))
     # malloc / free / stdlib_time only as fall-backs installed by polyseed_inject
@@ -347,7 +349,8 @@ def locals_engine(prop, tier, work, name):
     bad, unk, ok = [], [], []
     for sym, (fn, pty) in sorted(sf["agg_locals"].items()):
         nm = sym.rsplit("::", 1)[1]
-        if (fn, nm) in NONSECRET_LOCALS:
+        if (fn, nm) in NONSECRET_LOCALS or nm == "salt" or pty.startswith("const "):
+            # the public domain-separation salts (whatever helper they live in) and constant tables cannot carry secrets
             continue
         if sym in sf["wiped"]:
             ok.append(sym)
